@@ -17,9 +17,10 @@
    IterateSubDomain / DeleteAllSubdomains; a committed record deleted in this block is skipped.
    The model keeps [snap], the set of names committed at the last block end, for this.
 
-   Currency.  All amounts are in the chain's base currency (OLT).  Validate insists on that; on
-   the unvalidated deliver path (C04's finding) a non-OLT priced create/renew/purchase ends in
-   logger.Fatal (FeePool.AddToPool adds coins of different currencies), which is C18's matter. *)
+   Currency.  All amounts are in the chain's base currency (OLT): <kind>Tx.Validate insists on
+   that, and DeliverTx runs Validate before the handler (since /repo d276709), like CheckTx.
+   The signature / signer-set / fee / currency part of Validate is an input flag of a
+   transaction ([t_static_ok]); the per-kind field checks are modelled ([validate]). *)
 From Coq Require Import ZArith Ascii String.
 From stdpp Require Import gmap list strings.
 Local Open Scope Z_scope.
@@ -322,8 +323,28 @@ Definition run_op (e : env) (s : state) (o : op) : option state :=
 
 (* a delivered transaction: message, context, and the fee step's inputs (the address charged —
    the first signature's — and the charge = price x gas used; None: the fee step failed on its
-   own, e.g. gas limit) *)
-Record tx := { t_op : op ; t_env : env ; t_payer : addr ; t_fee : option Z }.
+   own, e.g. gas limit).
+   [t_static_ok]: the part of the handler's Validate the model does not own — the signatures are
+   valid and their signer set is msg.Signers() (action.ValidateBasic), the fee passes ValidateFee,
+   and the message's amount is in the base currency OLT (create/sell/purchase/renew).
+   [t_nil_benef]: the beneficiary field of the message is JSON null (a nil address) rather than
+   an empty or proper address — only DomainUpdate's Validate tells the two apart. *)
+Record tx := { t_op : op ; t_env : env ; t_payer : addr ; t_fee : option Z ;
+               t_static_ok : bool ; t_nil_benef : bool }.
+
+(* the per-kind field checks of <kind>Tx.Validate (action/ons/*.go), run by CheckTx and — since
+   /repo d276709 — by DeliverTx before the handler *)
+Definition validate (t : tx) : bool :=
+  t_static_ok t &&
+  match t_op t with
+  | Create _ _ n _ _ _ => name_syntax_ok n
+  | Update _ _ n act _ _ => name_syntax_ok n && negb (negb act && t_nil_benef t)
+  | Sell _ n p _ => (0 <=? p) && name_syntax_ok n && negb (is_sub n)
+  | Purchase _ _ n _ => name_syntax_ok n
+  | Send _ _ p => 0 <=? p
+  | Renew _ n _ => name_syntax_ok n && negb (is_sub n)
+  | DeleteSub _ n => name_syntax_ok n
+  end.
 
 Definition fee_step (s : state) (t : tx) : option state :=
   match t_fee t with
@@ -335,8 +356,9 @@ Definition fee_step (s : state) (t : tx) : option state :=
     end
   end.
 
-(* txDeliverer: handler, then fee, commit only if both succeeded *)
+(* txDeliverer: Validate, handler, then fee; commit only if all succeeded *)
 Definition deliver (s : state) (t : tx) : state * bool :=
+  if negb (validate t) then (s, false) else
   match run_op (t_env t) s (t_op t) with
   | None => (s, false)
   | Some s1 => match fee_step s1 t with None => (s, false) | Some s2 => (s2, true) end
